@@ -18,6 +18,7 @@ CONFIG = models.opaque_type('Config', pytype='dict')
 KDFCFG = models.opaque_type('KdfCfg', pytype='dict')
 KDFU = models.opaque_type('UserKdf')
 PATHT = models.opaque_type('KeyPath')
+PATHT.lenient = True          # methods the sidecar has no model for (added by a change) return unknown state
 
 
 def user_kdf(pw, salt, cfg):
@@ -302,6 +303,9 @@ def add_key_inner_setup(b):
     p, enc = shared.make_props(b)
     b.bind('props', p)
     b.props = p
+    # precondition (RepositoryProps.encrypt only `assert`s it; discharged at the call sites: add_key.only_for_encrypted_repository, init's
+    # `if props.encrypted`): keys are made for encrypted repositories only
+    b.assume(enc)
     b.sym('key_output_path', Opt(PATHT))
     # private: None (independent key: fresh secrets) or the caller's private section (shared / clone)
     b.sym('private', Opt(Ref(PRIVATE)))
@@ -379,6 +383,13 @@ def add_key_post(prop):
                 ep = e.data['props']
                 res.oblige(pc, f'{prop}.add_key.only_for_encrypted_repository',
                            z3.Not(Opt(CIPHER).is_none(p.st.heap.read(PROPS, 'cipher', ep.z))))
+            for e in p.events('parse_config'):
+                from vf.interp import Unknown
+                dl = [d for d in p.st.events if d.kind == 'download' and d.data['location'] == 'config']
+                c = e.data['contents']
+                known = dl and not isinstance(c, Unknown)
+                res.oblige(p.pc_at(e), f'{prop}.add_key.settings_come_from_this_repositorys_config', z3.BoolVal(False) if not known else
+                           sym.lift(c, BYTES).z == UF('B', STR, BYTES)(z3.StringVal('config')))
         res.oblige([], f'{prop}.add_key.call_sites_checked', z3.BoolVal(n >= 2))
     return post
 
@@ -534,6 +545,15 @@ def unlock_post(prop):
                 res.oblige(pc, f'{prop}.unlock.props_well_formed[{sig}]', wf)
             if p.events('instantiate_key_failed'):
                 res.oblige(p, f'{prop}.unlock.failed_key_never_unlocks[{sig}]', z3.BoolVal(not sets and p.kind == 'raise'))
+            for e in p.events('parse_config'):
+                # whether the repository is encrypted (and with what) is read from THIS repository's `config` object, fetched from the
+                # backend by this call - not from a copy kept elsewhere (another repository's config would switch encryption off)
+                dl = [d for d in p.st.events if d.kind == 'download' and d.data['location'] == 'config']
+                from vf.interp import Unknown
+                c = e.data['contents']
+                known = dl and not isinstance(c, Unknown)
+                res.oblige(p.pc_at(e), f'{prop}.unlock.settings_come_from_this_repositorys_config[{sig}]', z3.BoolVal(False) if not known else
+                           sym.lift(c, BYTES).z == UF('B', STR, BYTES)(z3.StringVal('config')))
         res.oblige([], f'{prop}.unlock.assignments_checked', z3.BoolVal(n >= 2))
     return post
 
@@ -855,3 +875,72 @@ def validate_units(prop):
     out += [Unit(f'{prop}.validate_add_key_settings', REPO_PY, 'Repository._validate_add_key_settings', validate_wrappers_setup('add_key', 'encrypted'),
                  validate_wrappers_post(prop, 'add_key', 'encrypted'), prop=prop)]
     return out
+
+
+# ------------------------------------------------------------------ adapters.from_config: name -> (adapter type, FULL parameter set)
+ADAPTERS_PY = 'replicat/utils/adapters.py'
+
+
+def from_config_setup(variant):
+    def setup(b):
+        mk = b.st.new_py
+        b.adapter = Obj('<adapter type sha2>')
+        b.bind('_adapters_mapping', mk('dict', {'sha2': b.adapter, 'scrypt': Obj('<adapter type scrypt>')}))
+        b.bind('name', 'sha2' if variant != 'unknown_name' else 'sha4')
+        b.user = {'bits': Obj('<user bits>')}
+        b.bind('kwargs', mk('dict', dict(b.user)))
+        b.arguments = Obj('<bound arguments>')
+
+        def apply_defaults(interp, st, a, kw):
+            st.emit('apply_defaults')
+            yield st, None
+
+        def arguments(interp, st, v):
+            st.emit('arguments_read')
+            yield st, b.arguments
+
+        bound = Obj('<bound>', apply_defaults=Model('apply_defaults', apply_defaults), arguments=ops.Property(arguments))
+
+        def bind(interp, st, a, kw):
+            st.emit('bind', args=list(a), kwargs=dict(kw))
+            if variant == 'bad_parameters':
+                yield st, Raised(Exc('TypeError'))
+            else:
+                yield st, bound
+
+        def signature(interp, st, a, kw):
+            st.emit('signature', of=a[0] if a else None)
+            yield st, Obj('<signature>', bind=Model('bind', bind))
+
+        b.bind('inspect', Obj('inspect', signature=Model('signature', signature)))
+        b.bind('exceptions', shared.EXCEPTIONS)
+    return setup
+
+
+def from_config_post(prop, variant):
+    def post(res):
+        b = res.builder
+        for p in res.paths:
+            if variant == 'unknown_name':
+                # an unknown adapter is a LookupError (init reports it before touching the backend)
+                res.oblige(p, f'{prop}.from_config[{variant}].unknown_adapter_is_a_lookup_error', z3.BoolVal(p.kind == 'raise' and p.value.cls == 'LookupError'))
+                continue
+            if variant == 'bad_parameters':
+                res.oblige(p, f'{prop}.from_config[{variant}].unknown_parameter_is_a_replicat_error', z3.BoolVal(p.kind == 'raise' and p.value.cls == 'ReplicatError'))
+                continue
+            kinds = [e.kind for e in p.st.events if e.kind in ('signature', 'bind', 'apply_defaults', 'arguments_read')]
+            ok = p.kind == 'return' and kinds == ['signature', 'bind', 'apply_defaults', 'arguments_read']
+            if ok:
+                v = p.value if isinstance(p.value, tuple) else res.interp.deref(p.st, ops.resolve(p.st, p.value))
+                ok = isinstance(v, (tuple, list)) and len(v) == 2 and v[0] is b.adapter and v[1] is b.arguments
+                sg, bd = p.events('signature')[0], p.events('bind')[0]
+                ok = ok and sg.data['of'] is b.adapter and not bd.data['args'] and set(bd.data['kwargs']) == {'bits'} and bd.data['kwargs']['bits'] is b.user['bits']
+            # the adapter registered under that name, with the user's parameters bound to ITS signature and the defaults filled in BEFORE
+            # the parameter set is taken (so the stored config is complete and does not depend on later default changes)
+            res.oblige(p, f'{prop}.from_config[{variant}].named_adapter_with_its_full_parameter_set', z3.BoolVal(bool(ok)))
+    return post
+
+
+def from_config_units(prop):
+    return [Unit(f'{prop}.from_config[{v}]', ADAPTERS_PY, 'from_config', from_config_setup(v), from_config_post(prop, v), prop=prop)
+            for v in ('ok', 'unknown_name', 'bad_parameters')]
